@@ -274,7 +274,7 @@ impl<A: Codec> Seq<A> {
     pub fn from_raw(len: usize, bits: &[usize]) -> Option<Self> {
         let mut bv: Bv = Bv::from_slice(bits);
         //debug_assert!(len <= bv.len(), "desired length is greater than provided bits string");
-        if len > bv.len() {
+        if len > bv.len() / A::BITS as usize {
             None
         } else {
             bv.truncate(len * A::BITS as usize);
